@@ -1,5 +1,15 @@
 package simrt
 
+import "sync"
+
 // Procs replaces runtime.GOMAXPROCS(0)/runtime.NumCPU() in instrumented code: worker-pool and limiter
 // sizes must not depend on the machine the simulation runs on.
 func Procs() int { return 4 }
+
+// Method values of locks (`release := mu.RUnlock`) become these closures.
+func MuLockFunc(m *sync.Mutex, site int32) func()       { return func() { MuLock(m, site) } }
+func MuUnlockFunc(m *sync.Mutex, site int32) func()     { return func() { MuUnlock(m) } }
+func RWLockFunc(m *sync.RWMutex, site int32) func()     { return func() { RWLock(m, site) } }
+func RWUnlockFunc(m *sync.RWMutex, site int32) func()   { return func() { RWUnlock(m) } }
+func RWRLockFunc(m *sync.RWMutex, site int32) func()    { return func() { RWRLock(m, site) } }
+func RWRUnlockFunc(m *sync.RWMutex, site int32) func()  { return func() { RWRUnlock(m) } }
